@@ -1,15 +1,31 @@
 // vgenlib calls the library entry point gen.Generate directly, without the
 // ancestry check of the command line: vgenlib <out dir> <thrift root> <input>
-// [no-recurse]. Exit 0 on success, 1 when compile or generate reports an error.
+// [no-recurse] [plugin=<json file: path -> contents>]. With plugin=, an in-process
+// api.ServiceGenerator returns those files (no transport, so no path check of
+// the transport applies). Exit 0 on success, 1 when compile or generate
+// reports an error.
 package main
 
 import (
+	"encoding/json"
 	"fmt"
 	"os"
+	"strings"
 
 	"go.uber.org/thriftrw/compile"
 	"go.uber.org/thriftrw/gen"
+	"go.uber.org/thriftrw/plugin/api"
 )
+
+type inproc struct{ files map[string]string }
+
+func (p inproc) Generate(*api.GenerateServiceRequest) (*api.GenerateServiceResponse, error) {
+	res := &api.GenerateServiceResponse{Files: map[string][]byte{}}
+	for k, v := range p.files {
+		res.Files[k] = []byte(v)
+	}
+	return res, nil
+}
 
 func main() {
 	if len(os.Args) < 4 {
@@ -22,8 +38,22 @@ func main() {
 		os.Exit(1)
 	}
 	o := &gen.Options{OutputDir: os.Args[1], PackagePrefix: "example.com/gen", ThriftRoot: os.Args[2], NoVersionCheck: true}
-	if len(os.Args) > 4 && os.Args[4] == "no-recurse" {
-		o.NoRecurse = true
+	for _, a := range os.Args[4:] {
+		if a == "no-recurse" {
+			o.NoRecurse = true
+		}
+		if f, ok := strings.CutPrefix(a, "plugin="); ok {
+			b, err := os.ReadFile(f)
+			var files map[string]string
+			if err == nil {
+				err = json.Unmarshal(b, &files)
+			}
+			if err != nil {
+				fmt.Fprintln(os.Stderr, "vgenlib:", err)
+				os.Exit(2)
+			}
+			o.Plugin = gen.CodeGenerator{ServiceGenerator: inproc{files}}
+		}
 	}
 	if err := gen.Generate(m, o); err != nil {
 		fmt.Fprintln(os.Stderr, "generate:", err)
